@@ -110,6 +110,7 @@ type scn struct {
 	relaySet                        map[int]bool      // validator indexes in the trust root currently stored for the other BitXHub (observed)
 	relayN                          int
 	icCum                           uint64      // C09: interchain transactions counted over all blocks (incl. the prologue)
+	auditSponsor                    map[string]*Key       // proposal id -> account that submitted the audit operation
 	hist                            map[uint64]*histEntry // per height: what the reference computed (kept only when a replica lags, Policy.Burst)
 	prevRefDump                     [][2]string // state store of the reference replica after the previous block (only kept when there are other replicas)
 }
@@ -393,6 +394,9 @@ func (s *scn) setup() {
 			}
 		}
 	}
+	if s.cfg.AuditOps {
+		s.setupAudit()
+	}
 	s.blockNo = 0
 }
 
@@ -491,6 +495,10 @@ func (s *scn) apply(st CStep) {
 		s.applyRelayTrust(st)
 	case "xhub":
 		s.applyXhub(st)
+	case "audop":
+		s.applyAudit(st)
+	case "auditcycle":
+		s.applyAuditCycle(st)
 	case "ruleop":
 		s.applyRuleOp(st)
 	case "eth":
